@@ -213,6 +213,7 @@ func c02Directed() []Directed {
 func init() {
 	Register(&Engine{
 		ID:       "C02",
+		Anchors:  []string{"node.go:matchChildren", "segment.go:Segment.Match", "node.go:addSegment", "node.go:splitNode", "node.go:buildIndexes", "segment.go:longestPrefix"},
 		Cases:    func(t string) int { return map[string]int{"quick": 1200, "thorough": 100000}[t] },
 		Run:      runC02,
 		Directed: c02Directed,
